@@ -654,6 +654,21 @@ namespace bloch::runtime {
                     }
                 }
             }
+            // ... and so do @tracked static fields, which live as long as the run
+            std::vector<std::string> classNames;
+            for (auto& kv : m_classTable) classNames.push_back(kv.first);
+            std::sort(classNames.begin(), classNames.end());
+            for (auto& cn : classNames) {
+                RuntimeClass* cls = m_classTable[cn].get();
+                for (size_t i = 0; i < cls->staticFields.size() && i < cls->staticStorage.size();
+                     ++i) {
+                    const auto& f = cls->staticFields[i];
+                    const auto& v = cls->staticStorage[i];
+                    if (f.isTracked &&
+                        (v.type == Value::Type::Qubit || v.type == Value::Type::QubitArray))
+                        recordTrackedValue(cls->name + "." + f.name, v);
+                }
+            }
         }
         // Ensure warnings appear before any normal echo output
         if (m_warnOnExit)
